@@ -545,6 +545,16 @@ func ruleA4Inert(c *Ctx) {
 			continue
 		}
 		muts, fails := im.pointsOf(fn)
+		if len(muts) > 0 {
+			if bad := im.noChangeAfterFailedStatus(fn, muts); len(bad) > 0 {
+				for i, b := range bad {
+					if i >= 3 {
+						break
+					}
+					c.S.Bad("A4-inert", fmt.Sprintf("%s:change-after-failed-status#%d", fnName(fn), i+1), c.Pos(fn.Pos()), fnName(fn)+": "+b+" — the command answers an error (or 0) and has changed the key all the same")
+				}
+			}
+		}
 		if len(muts) == 0 || len(fails) == 0 {
 			continue
 		}
@@ -591,3 +601,291 @@ func shortWhat(s string) string {
 
 // inertExempt: functions that legitimately run several independent commands or steps, with the reason.
 var inertExempt = map[string]string{}
+
+// ---------------------------------------------------------------- no change after a failed status
+
+// statusDomain describes the values a status result can take and which of them mean "the command fails".
+type statusDomain struct {
+	all, failing uint32
+	kind         string // enum | bool | ptr
+}
+
+func (c *Ctx) statusDomainOf(res *types.Var) (statusDomain, bool) {
+	t := res.Type()
+	if min, ok := c.failEncOf(t); ok {
+		n := uint32(5)
+		if isNamed(t, "keyOpResult") {
+			n = 3
+		}
+		all := uint32(1)<<n - 1
+		var failing uint32
+		for i := uint32(0); i < n; i++ {
+			if int64(i) >= min {
+				failing |= 1 << i
+			}
+		}
+		return statusDomain{all, failing, "enum"}, true
+	}
+	if b, ok := t.Underlying().(*types.Basic); ok && b.Kind() == types.Bool && res.Name() == "wrongType" {
+		return statusDomain{3, 2, "bool"}, true
+	}
+	if p, ok := t.(*types.Pointer); ok && c.isPkgType(p.Elem(), "respErrorString") {
+		return statusDomain{3, 2, "ptr"}, true
+	}
+	if t.String() == "error" {
+		return statusDomain{3, 2, "ptr"}, true
+	}
+	return statusDomain{}, false
+}
+
+// refine: the possible values of v on the successor `succIdx` of an If with condition cond.
+func refineStatus(cond ssa.Value, v ssa.Value, d statusDomain, m uint32, succIdx int) uint32 {
+	truth := succIdx == 0
+	switch x := cond.(type) {
+	case *ssa.UnOp:
+		if x.Op == token.NOT {
+			return refineStatus(x.X, v, d, m, 1-succIdx)
+		}
+	case *ssa.BinOp:
+		if x.Op != token.EQL && x.Op != token.NEQ {
+			return m
+		}
+		var other ssa.Value
+		if sameStatus(x.X, v) {
+			other = x.Y
+		} else if sameStatus(x.Y, v) {
+			other = x.X
+		} else {
+			return m
+		}
+		k, ok := other.(*ssa.Const)
+		if !ok {
+			return m
+		}
+		var bit uint32
+		switch d.kind {
+		case "enum":
+			if k.Value == nil {
+				return m
+			}
+			bit = 1 << uint32(k.Int64())
+		case "bool":
+			bit = 1
+			if k.Value != nil && k.Value.String() == "true" {
+				bit = 2
+			}
+		case "ptr":
+			if !k.IsNil() {
+				return m
+			}
+			bit = 1 // nil
+		}
+		eq := (x.Op == token.EQL) == truth
+		if eq {
+			return m & bit
+		}
+		return m &^ bit
+	}
+	if sameStatus(cond, v) && d.kind == "bool" {
+		if truth {
+			return m & 2
+		}
+		return m & 1
+	}
+	return m
+}
+
+// sameStatus: the same SSA value, or another extract of the same result of the same call.
+func sameStatus(a, v ssa.Value) bool {
+	if a == v {
+		return true
+	}
+	ea, ok1 := a.(*ssa.Extract)
+	ev, ok2 := v.(*ssa.Extract)
+	if ok1 && ok2 && ea.Tuple == ev.Tuple && ea.Index == ev.Index {
+		return true
+	}
+	// reload of a local cell (a named result kept in memory because of a defer) that the status was stored into
+	if u, ok := a.(*ssa.UnOp); ok && u.Op == token.MUL {
+		if al, ok := u.X.(*ssa.Alloc); ok {
+			for _, r := range referrers(al) {
+				if st, ok := r.(*ssa.Store); ok && st.Addr == ssa.Value(al) && st.Val != a && sameStatus(st.Val, v) {
+					return true
+				}
+			}
+		}
+	}
+	return false
+}
+
+// noChangeAfterFailedStatus: on no path a change point is executed while a status obtained from a callee earlier on
+// that path may still be a failing one.
+func (im *inertModel) noChangeAfterFailedStatus(fn *ssa.Function, muts []inertPoint) []string {
+	c := im.c
+	var out []string
+	for _, in := range instrsOf(fn) {
+		call, ok := in.(*ssa.Call)
+		if !ok || im.neutralCall(call) {
+			continue
+		}
+		g := call.Call.StaticCallee()
+		if g == nil || !c.InPkg(g) || !im.mayFail[g] {
+			continue
+		}
+		res := g.Signature.Results()
+		for i := 0; i < res.Len(); i++ {
+			d, ok := c.statusDomainOf(res.At(i))
+			if !ok {
+				continue
+			}
+			// can g return a failing value in this position at all?
+			if !im.returnsFailing(g, i) {
+				continue
+			}
+			var v ssa.Value
+			if res.Len() == 1 {
+				v = call
+			} else {
+				for _, r := range referrers(call) {
+					if ex, ok := r.(*ssa.Extract); ok && ex.Index == i {
+						v = ex
+					}
+				}
+			}
+			if v == nil || len(referrers(v)) == 0 {
+				continue // result discarded
+			}
+			// only statuses this function treats as a failure of the command: it hands the status on as its own
+			// result, or produces a failure on a branch decided by it (a status that is merely looked at — "weight
+			// key missing or of another type: use 0" — is not a failure of the command)
+			if !im.treatedAsFailure(fn, v, d) {
+				continue
+			}
+			// forward data flow of the possible values
+			state := map[*ssa.BasicBlock]uint32{}
+			start := call.Block()
+			type item struct {
+				b    *ssa.BasicBlock
+				from int // first instruction index to look at
+				m    uint32
+			}
+			work := []item{{start, instrIndex(call) + 1, d.all}}
+			for len(work) > 0 {
+				it := work[len(work)-1]
+				work = work[:len(work)-1]
+				if it.m&d.failing != 0 {
+					for _, mp := range muts {
+						if mp.in == ssa.Instruction(call) {
+							continue
+						}
+						if mp.blk == it.b && mp.idx > it.from-1 && mp.idx >= it.from {
+							out = append(out, fmt.Sprintf("%s (at %s) can run although %s, obtained from %s at %s, may still report a failure", mp.what, c.Pos(c.InstrPos(mp.in)), res.At(i).Name(), fnName(g), c.Pos(call.Pos())))
+						}
+					}
+				}
+				last := it.b.Instrs[len(it.b.Instrs)-1]
+				for si, s := range it.b.Succs {
+					m := it.m
+					if ifi, ok := last.(*ssa.If); ok {
+						m = refineStatus(ifi.Cond, v, d, m, si)
+					}
+					if m == 0 {
+						continue
+					}
+					if s == start {
+						continue // the call is executed again: a new status
+					}
+					if old, seen := state[s]; seen && old|m == old {
+						continue
+					}
+					state[s] |= m
+					work = append(work, item{s, 0, state[s]})
+				}
+			}
+		}
+	}
+	sort.Strings(out)
+	var uniq []string
+	for i, s := range out {
+		if i == 0 || s != out[i-1] {
+			uniq = append(uniq, s)
+		}
+	}
+	return uniq
+}
+
+// treatedAsFailure: v reaches a failure-result position of a return of fn, or a branch on v dominates a failure point.
+func (im *inertModel) treatedAsFailure(fn *ssa.Function, v ssa.Value, d statusDomain) bool {
+	res := fn.Signature.Results()
+	for _, b := range fn.Blocks {
+		ret, ok := b.Instrs[len(b.Instrs)-1].(*ssa.Return)
+		if !ok {
+			continue
+		}
+		for i, r := range ret.Results {
+			if i >= res.Len() {
+				continue
+			}
+			if _, isStatus := im.c.statusDomainOf(res.At(i)); !isStatus {
+				continue
+			}
+			for _, leaf := range phiLeaves(r, map[ssa.Value]bool{}) {
+				if sameStatus(leaf, v) {
+					return true
+				}
+			}
+		}
+	}
+	for _, b := range fn.Blocks {
+		ifi, ok := b.Instrs[len(b.Instrs)-1].(*ssa.If)
+		if !ok {
+			continue
+		}
+		onV := false
+		switch x := ifi.Cond.(type) {
+		case *ssa.BinOp:
+			onV = sameStatus(x.X, v) || sameStatus(x.Y, v)
+		default:
+			onV = sameStatus(ifi.Cond, v)
+		}
+		if !onV {
+			continue
+		}
+		for si, s := range b.Succs {
+			if len(s.Preds) != 1 {
+				continue
+			}
+			// the arm on which the status can still be a failing value
+			if refineStatus(ifi.Cond, v, d, d.all, si)&d.failing == 0 {
+				continue
+			}
+			for _, fp := range im.fails[fn] {
+				if fp.blk == s || s.Dominates(fp.blk) {
+					return true
+				}
+			}
+		}
+	}
+	return false
+}
+
+// returnsFailing: some return of g carries a failing constant (or a propagated status) in result position idx.
+func (im *inertModel) returnsFailing(g *ssa.Function, idx int) bool {
+	for _, p := range im.fails[g] {
+		if strings.HasPrefix(p.what, "failure result") {
+			return true
+		}
+	}
+	// propagated from a callee
+	for _, b := range g.Blocks {
+		if ret, ok := b.Instrs[len(b.Instrs)-1].(*ssa.Return); ok && idx < len(ret.Results) {
+			for _, leaf := range phiLeaves(ret.Results[idx], map[ssa.Value]bool{}) {
+				switch leaf.(type) {
+				case *ssa.Extract, *ssa.Call:
+					return true
+				}
+			}
+		}
+	}
+	return false
+}
